@@ -5,7 +5,7 @@
 (* FALSE on the event; EventDrift(ev, pre) the L2 (implementation-shaped)   *)
 (* disagreements.                                                           *)
 (***************************************************************************)
-EXTENDS Props
+EXTENDS FermiAbs
 
 Has(r, f) == f \in DOMAIN r
 Flag(a, f) == f \in DOMAIN a /\ a[f] = TRUE
@@ -175,6 +175,192 @@ AbToDense(ev, pre) ==
        \cup (IF IsDense(r) /\ r.exact /\ AllExact(x) THEN F(DenseNZ(r) = DenseElems(x), "C16.to_dense.value") ELSE {}),
        "C16.to_dense")
 
+
+
+---------------------------------------------------------------------------
+\* einsum (single array): lhs / rhs arrive as sequences of letter codes
+EinsumPairs(lhs, rhs) ==
+  LET traced == {lhs[i] : i \in 1..Len(lhs)} \ {rhs[i] : i \in 1..Len(rhs)}
+  IN {pq \in (1..Len(lhs)) \X (1..Len(lhs)) : pq[1] < pq[2] /\ lhs[pq[1]] = lhs[pq[2]] /\ lhs[pq[1]] \in traced}
+EinsumKept(lhs, rhs) == [i \in 1..Len(rhs) |-> CHOOSE p \in 1..Len(lhs) : lhs[p] = rhs[i] /\ \A q \in 1..(p - 1) : lhs[q] # rhs[i]]
+EinsumEnabled(x, lhs, rhs) ==
+  LET traced == {lhs[i] : i \in 1..Len(lhs)} \ {rhs[i] : i \in 1..Len(rhs)}
+  IN /\ Len(lhs) = Rank(x)
+     /\ \A i, j \in 1..Len(rhs) : i # j => rhs[i] # rhs[j]
+     /\ \A i \in 1..Len(rhs) : Cardinality({p \in 1..Len(lhs) : lhs[p] = rhs[i]}) = 1
+     /\ \A t \in traced : Cardinality({p \in 1..Len(lhs) : lhs[p] = t}) = 2
+     /\ \A pq \in EinsumPairs(lhs, rhs) : Contractible(x, x, <<pq[1]>>, <<pq[2]>>)
+EinsumDen(x, E, kept) ==
+  [E |-> E, ix |-> [i \in 1..Len(kept) |-> PlainIndex(x.ix[kept[i]])], charge |-> x.charge]
+
+AbEinsum(ev, pre) ==
+  LET x == Ins(ev, pre, 1)
+      lhs == ev.args.lhs
+      rhs == ev.args.rhs
+  IN Judge(ev, EinsumEnabled(x, lhs, rhs),
+       P_Contract(Outs(ev, 1), EinsumDen(x, EinsumElems(x, EinsumPairs(lhs, rhs), EinsumKept(lhs, rhs)), EinsumKept(lhs, rhs)), "C02.einsum"),
+       "C02.einsum")
+
+---------------------------------------------------------------------------
+\* fermionic operations (C03, C09, C10)
+
+\* result of a graded operation: array with labels, or a scalar
+P_Graded(res, exp, lab, p) ==
+  IF IsArray(res)
+  THEN F(Valid(res), p \o ".result_valid")
+       \cup (IF Valid(res) /\ AllExact(res) THEN WhyGraded(res, exp, lab, p) ELSE {})
+  ELSE IF IsScalar(res)
+  THEN F(exp.ix = <<>>, p \o ".rank")
+       \cup (IF res.exact /\ lab = <<>> THEN F(res.v = ValAt(exp.E, <<>>), p \o ".value") ELSE {})
+  ELSE {p \o ".type"}
+
+FeTranspose(ev, pre) ==
+  LET x == Ins(ev, pre, 1)
+      n == Rank(x)
+      perm == IF Flag(ev.args, "axes_none") THEN Reversal(n) ELSE [i \in 1..Len(ev.args.axes) |-> ev.args.axes[i] + 1]
+      graded == ~(Has(ev.args, "phase") /\ ev.args.phase = FALSE)
+      en == IsPermOf(perm, n)
+  IN Judge(ev, en, LET r == Outs(ev, 1) IN
+       F(Valid(r), "C03.transpose.result_valid") \cup
+       (IF Valid(r) /\ AllExact(r)
+        THEN (IF graded THEN WhySameDen(Den(r), GTransposeDen(x, perm), "C03.transpose")
+              ELSE {}) \cup F(r.oddpos = x.oddpos, "C03.transpose.labels")
+        ELSE {}), "C03.transpose")
+
+FeUnary(ev, pre, exp, lab, p) ==
+  Judge(ev, TRUE, LET r == Outs(ev, 1) IN
+       F(IsArray(r) /\ Valid(r), p \o ".result_valid") \cup
+       (IF IsArray(r) /\ Valid(r) /\ AllExact(r)
+        THEN WhySameDen(Den(r), exp, p) \cup F(r.oddpos = lab, p \o ".labels") ELSE {}), p)
+
+FeConj(ev, pre) ==
+  LET x == Ins(ev, pre, 1)
+      pp == ~(Has(ev.args, "phase_permutation") /\ ev.args.phase_permutation = FALSE)
+      pd == Flag(ev.args, "phase_dual")
+  IN IF ~pp THEN {} ELSE FeUnary(ev, pre, GConjDenPD(x, pd), LabelConj(x.oddpos), "C10.conj")
+
+FeDagger(ev, pre) ==
+  LET x == Ins(ev, pre, 1)
+      pd == Flag(ev.args, "phase_dual")
+  IN FeUnary(ev, pre, GDaggerDenPD(x, pd), LabelConj(x.oddpos), "C10.dagger")
+
+FeTensordot(ev, pre) ==
+  LET a == Ins(ev, pre, 1)
+      b == Ins(ev, pre, 2)
+      ax == TdAxes(ev.args, Rank(a), Rank(b))
+      en == /\ IsArray(b) /\ IsFermi(b)
+            /\ (Has(ev.args, "naxes") => ev.args.naxes \in 0..Rank(a) /\ ev.args.naxes <= Rank(b))
+            /\ Contractible(a, b, ax[1], ax[2])
+            /\ LabelsOK(a.oddpos \o b.oddpos)
+            /\ (Has(ev.args, "mode") => ev.args.mode \in {"auto", "fused", "blockwise", "default"})
+  IN Judge(ev, en,
+       P_Graded(Outs(ev, 1), GContractDen(a, b, ax[1], ax[2]), GContractLabels(a, b), "C03.tensordot")
+       \cup F(Flag(ev.args, "preserve_array") => IsArray(Outs(ev, 1)), "C03.tensordot.preserve_array"),
+       "C03.tensordot")
+
+FeMatmul(ev, pre) ==
+  LET a == Ins(ev, pre, 1)
+      b == Ins(ev, pre, 2)
+      en == /\ Rank(a) \in {1, 2} /\ Rank(b) \in {1, 2} /\ Contractible(a, b, <<Rank(a)>>, <<1>>)
+            /\ LabelsOK(a.oddpos \o b.oddpos)
+  IN Judge(ev, en, P_Graded(Outs(ev, 1), GContractDen(a, b, <<Rank(a)>>, <<1>>), GContractLabels(a, b), "C03.matmul"), "C03.matmul")
+
+FeTrace(ev, pre) ==
+  LET x == Ins(ev, pre, 1)
+      en == Rank(x) = 2 /\ Contractible(x, x, <<1>>, <<2>>)
+      E == GEinsumElems(x, {<<1, 2>>}, <<>>)
+  IN Judge(ev, en, LET r == Outs(ev, 1) IN
+        IF IsScalar(r) THEN (IF r.exact THEN F(r.v = ValAt(E, <<>>), "C03.trace.value") ELSE {})
+        ELSE {"C03.trace.type"}, "C03.trace")
+
+FeEinsum(ev, pre) ==
+  LET x == Ins(ev, pre, 1)
+      lhs == ev.args.lhs
+      rhs == ev.args.rhs
+      kept == EinsumKept(lhs, rhs)
+  IN Judge(ev, EinsumEnabled(x, lhs, rhs),
+       P_Graded(Outs(ev, 1), EinsumDen(x, GEinsumElems(x, EinsumPairs(lhs, rhs), kept), kept), x.oddpos, "C03.einsum"),
+       "C03.einsum")
+
+FePhase(ev, pre) ==
+  LET x == Ins(ev, pre, 1)
+      n == Rank(x)
+      p == "C09." \o ev.op
+  IN CASE ev.op = "phase_flip" ->
+            LET axs == NormAxes(ev.args.axs, n) IN FeUnary(ev, pre, GPhaseFlipDen(x, axs), x.oddpos, p)
+       [] ev.op = "phase_transpose" ->
+            LET perm == IF Flag(ev.args, "axes_none") THEN Reversal(n) ELSE [i \in 1..Len(ev.args.axes) |-> ev.args.axes[i] + 1]
+            IN IF IsPermOf(perm, n) THEN FeUnary(ev, pre, GPhaseTransposeDen(x, perm), x.oddpos, p) ELSE {}
+       [] ev.op = "phase_global" -> FeUnary(ev, pre, GPhaseGlobalDen(x), x.oddpos, p)
+       [] ev.op = "phase_sector" -> FeUnary(ev, pre, GPhaseSectorDen(x, ev.args.sector), x.oddpos, p)
+       [] ev.op = "phase_sync" ->
+            FeUnary(ev, pre, Den(x), x.oddpos, p)
+            \cup (IF ev.outcome = "ok" /\ IsArray(Outs(ev, 1)) /\ AllExact(Outs(ev, 1))
+                  THEN F(RawElem(Outs(ev, 1)) = Elem(x), "C09.phase_sync.applied_once")
+                       \cup F(Outs(ev, 1).phases = <<>>, "C09.phase_sync.cleared")
+                  ELSE {})
+
+FeToDense(ev, pre) ==
+  LET x == Ins(ev, pre, 1)
+      r == Outs(ev, 1)
+  IN Judge(ev, x.blocks # <<>>,
+       F(IsDense(r) /\ r.shape = DenseShape(x), "C09.to_dense.shape")
+       \cup (IF IsDense(r) /\ r.exact /\ AllExact(x) THEN F(DenseNZ(r) = DenseElems(x), "C09.to_dense.value") ELSE {}),
+       "C09.to_dense")
+
+FermiFails(ev, pre) ==
+  CASE ev.op = "transpose" -> FeTranspose(ev, pre)
+    [] ev.op = "T" -> FeUnary(ev, pre, GTransposeDen(Ins(ev, pre, 1), Reversal(Rank(Ins(ev, pre, 1)))), Ins(ev, pre, 1).oddpos, "C03.transpose")
+    [] ev.op = "conj" -> FeConj(ev, pre)
+    [] ev.op \in {"dagger", "H"} -> FeDagger(ev, pre)
+    [] ev.op = "copy" -> FeUnary(ev, pre, Den(Ins(ev, pre, 1)), Ins(ev, pre, 1).oddpos, "C09.copy")
+    [] ev.op = "tensordot" -> FeTensordot(ev, pre)
+    [] ev.op = "matmul" -> FeMatmul(ev, pre)
+    [] ev.op = "trace" -> FeTrace(ev, pre)
+    [] ev.op = "einsum" -> FeEinsum(ev, pre)
+    [] ev.op \in {"phase_flip", "phase_transpose", "phase_global", "phase_sector", "phase_sync"} -> FePhase(ev, pre)
+    [] ev.op = "to_dense" -> FeToDense(ev, pre)
+    [] OTHER -> {}
+
+---------------------------------------------------------------------------
+\* relational pseudo-events: the driver names registers, the SPEC compares them
+\* args.clause names the clause, args.how the relation
+SameBlocks(x, y) ==
+  \* every block of x is in y with identical data, extra blocks of y are exactly zero
+  /\ x.ix = y.ix /\ x.charge = y.charge
+  /\ \A i \in 1..Len(x.blocks) : HasSector(y, x.blocks[i].s)
+        /\ BlockOf(y, x.blocks[i].s).shape = x.blocks[i].shape
+        /\ BlockOf(y, x.blocks[i].s).data = x.blocks[i].data
+        /\ BlockOf(y, x.blocks[i].s).dt = x.blocks[i].dt
+  /\ \A j \in 1..Len(y.blocks) : ~HasSector(x, y.blocks[j].s) =>
+        \A q \in 1..Len(y.blocks[j].data) : y.blocks[j].data[q] = VZero
+Labels(x) == IF IsFermi(x) THEN x.oddpos ELSE <<>>
+SameValue(x, y) ==
+  IF IsArray(x) /\ IsArray(y) THEN Den(x) = Den(y) /\ Labels(x) = Labels(y) /\ x.kind = y.kind /\ x.sym = y.sym
+  ELSE IF IsScalar(x) /\ IsScalar(y) THEN x.v = y.v
+  ELSE IF IsVector(x) /\ IsVector(y) THEN VecElem(x) = VecElem(y)
+  ELSE IF IsDense(x) /\ IsDense(y) THEN x.shape = y.shape /\ x.data = y.data
+  ELSE IF IsRaise(x) /\ IsRaise(y) THEN TRUE
+  ELSE IF IsScalar(x) /\ IsArray(y) THEN Rank(y) = 0 /\ x.v = ValAt(Elem(y), <<>>)
+  ELSE IF IsArray(x) /\ IsScalar(y) THEN Rank(x) = 0 /\ y.v = ValAt(Elem(x), <<>>)
+  ELSE x = y
+ExactVal(x) == IF IsArray(x) THEN AllExact(x) ELSE IF IsVector(x) THEN AllExact(x)
+               ELSE IF IsScalar(x) \/ IsDense(x) THEN x.exact ELSE TRUE
+
+PseudoFails(ev, pre) ==
+  LET c == ev.args.clause
+      x == Ins(ev, pre, 1)
+      y == Ins(ev, pre, 2)
+  IN CASE ev.args.how = "same" ->
+            IF ExactVal(x) /\ ExactVal(y) THEN F(SameValue(x, y), c) ELSE {}
+       [] ev.args.how = "obs" -> F(Obs(x) = Obs(y), c)
+       [] ev.args.how = "blocks" -> IF AllExact(x) /\ AllExact(y) THEN F(SameBlocks(x, y) /\ Labels(x) = Labels(y), c) ELSE {}
+       [] ev.args.how = "norm2" ->
+            \* x : scalar, y : array;  x = sum |y|^2
+            IF IsScalar(x) /\ x.exact /\ AllExact(y) THEN F(x.v = <<Norm2(Elem(y)), 0>>, c) ELSE {}
+       [] ev.args.how = "true" -> F(x.t = "bool" /\ x.v = TRUE, c)
+       [] OTHER -> {"X00.unknown_relation"}
+
 AbelianFails(ev, pre) ==
   CASE ev.op = "transpose" -> AbTranspose(ev, pre)
     [] ev.op = "T" -> AbUnary(ev, pre, TransposeDen(Ins(ev, pre, 1), Reversal(Rank(Ins(ev, pre, 1)))), "C08.transpose")
@@ -187,6 +373,7 @@ AbelianFails(ev, pre) ==
     [] ev.op = "tensordot" -> AbTensordot(ev, pre)
     [] ev.op = "matmul" -> AbMatmul(ev, pre)
     [] ev.op = "trace" -> AbTrace(ev, pre)
+    [] ev.op = "einsum" -> AbEinsum(ev, pre)
     [] ev.op \in {"add", "sub", "mul", "iadd", "isub", "imul"} -> AbBinary(ev, pre)
     [] ev.op \in {"smul", "rsmul", "sdiv", "ismul", "isdiv"} -> AbScalarOp(ev, pre)
     [] ev.op = "multiply_diagonal" -> AbMulDiag(ev, pre)
@@ -197,8 +384,10 @@ AbelianFails(ev, pre) ==
 ---------------------------------------------------------------------------
 OpFails(ev, pre) ==
   IF ev.op = "init" \/ ev.in = <<>> THEN {}
+  ELSE IF ev.op = "rel" THEN PseudoFails(ev, pre)
   ELSE LET x == Ins(ev, pre, 1) IN
        IF IsArray(x) /\ ~IsFermi(x) THEN AbelianFails(ev, pre)
+       ELSE IF IsArray(x) /\ IsFermi(x) THEN FermiFails(ev, pre)
        ELSE {}
 
 EventFails(ev, pre) ==
